@@ -53,6 +53,12 @@ func VerifPages(d *Document) []VerifPageData {
 // VerifPageBox returns the laid out page box of a page.
 func VerifPageBox(p Page) *bo.PageBox { return p.pageBox }
 
+// VerifHasTransform tells whether gatherLinksAndBookmarks applies a CSS transform for this box.
+func VerifHasTransform(box bo.Box) bool {
+	_, ok := getMatrix(box)
+	return ok
+}
+
 func verifDocument(pages []VerifPageData) Document {
 	d := Document{Pages: make([]Page, len(pages))}
 	for i, p := range pages {
